@@ -11,7 +11,9 @@ FUNCTIONS = ['uxarray.core.dataarray.UxDataArray._copy',
     'uxarray.grid.grid.Grid.copy',
     'uxarray.core.dataarray.UxDataArray.isel@dims=time,n_face',
     'uxarray.core.dataarray.UxDataArray.isel@dims=n_node',
-    'uxarray.core.dataarray.UxDataArray.isel@dims=lev,n_edge']
+    'uxarray.core.dataarray.UxDataArray.isel@dims=lev,n_edge',
+    'uxarray.grid.slice._slice_face_indices@source_is_itself_a_subset',
+    'uxarray.grid.slice._slice_face_indices']
 STANDINS = ["xarray_ops"]
 ASSUMPTIONS = []
 EXPLANATION = ""
